@@ -55,6 +55,14 @@ CHECKS = {
             "Thousands of short concurrent histories (<= 24 operations, 1..4 x 1..4 processes, mixed roles, PRNG yields) over five wrapped implementations are checked for linearizability after a drain; long runs with up to 16+16 goroutines by the exactly-once / no-invention / per-producer-order checker; every call under recover; the same workloads in the -race build where any report inside the wrapper or the wrapped structure refutes the property.",
             "Trusted: porcupine v1.3.0 and the 40-line sequential models; the race detector sees only executed access pairs; schedules are sampled (OS scheduler + PRNG yields), not enumerated.",
             "DESIGN.md section 5, C08"),
+    "C12": ("exploration", "in-effect monitors (atomic busy counter; plain-variable probe under the Go race detector) + per-sender order / exactly-once log checker",
+            "Dozens (thorough: hundreds, incl. 60000-message runs) of workloads with 1..16 concurrent senders x 1..2000 messages x channel capacity 0..4 against a Handler and an Actor: no two effects overlap (busy counter) or are unordered by happens-before (race build: plain probe variables, deciding), every message exactly once, per-sender order, self == actor, nothing runs after Close returned; spawn trees depth 1..3 x fan 1..3 for the bookkeeping and mailbox independence.",
+            "Trusted: the drain marker as the only synchronisation with the reader; the race detector sees only executed access pairs; schedules are sampled.",
+            "DESIGN.md section 5, C12"),
+    "C16": ("exploration", "mapped function as monitor (per-element counters, concurrency gauge) + stuck detector + Go race detector",
+            "List lengths 0..64 (thorough ..257) x FixedPool in {-1,0,1,2,len-1,len,len+1,1000, absent} x both order modes x 5 duration profiles incl. reversed completion order: result equals Map(f,list) (permutation for RandomOrder), f exactly once per element and on nothing else, observed parallelism <= min(FixedPool,len), no application still running at return, termination (stuck detector); repeated under -race.",
+            "Trusted: atomic counters inside f; the stuck detector's three conditions; the race detector sees only executed access pairs.",
+            "DESIGN.md section 5, C16"),
 }
 
 NOT_YET = "check not built yet in this session (runtime monitoring applies; see DESIGN.md section 5)"
